@@ -217,7 +217,20 @@ const escMixed = "a\"b\\c\n\u0001\u00e9\",\"k\":\"x"
 
 // singleOnly: escaping deviations are local by nature; they are enumerated as
 // single deviations in both tiers and do not take part in deviation pairs.
-func (d Deviation) singleOnly() bool { return strings.HasPrefix(d.Kind, "esc-") }
+func (d Deviation) singleOnly() bool {
+	return strings.HasPrefix(d.Kind, "esc-") || strings.HasPrefix(d.Kind, "num-")
+}
+
+// number spellings for Int positions: exponent forms without a decimal point,
+// positive and negative exponents, both signs, upper and lower case E.
+var intNonIntegral = []string{"15e-1", "5E-1", "125e-2", "-15e-1", "1.5e0"}                  // ill-typed
+var intIntegral = []string{"10e-1", "1e3", "-1E3", "1e+3", "150e-1", "1.5e1", "1.0", "-2.0"} // well-typed (integral, in range)
+
+// whole numbers below / at / above the int64 range and exponent forms for
+// Float positions (all well-typed; all exactly representable as a double
+// except 9223372036854775807.0, which rounds to 2^63)
+var floatSpellings = []string{"1.0", "4e3", "-2.0", "15e-1", "9007199254740992.0", "9223372036854775807.0",
+	"9223372036854775808", "-9223372036854775808", "-9223372036854777856", "9300000000000000000", "1e19", "-1E19", "1e20", "100000000000000000000.0"}
 
 // menu lists the deviations applicable at one position, simplest first.
 func menu(p position) []Deviation {
@@ -266,9 +279,18 @@ func menu(p position) []Deviation {
 			add("object-for-scalar", objectForScalar)
 			amb("int-beyond-32-bit", num("3000000000"), "Int: the table only demands an integral number, the spec a 32-bit one")
 			add("esc-mixed-for-number", escMixed)
+			for _, v := range intNonIntegral {
+				add("num-nonintegral-for-int", num(v))
+			}
+			for _, v := range intIntegral {
+				add("num-integral-spelling", num(v)) // well-typed
+			}
 		case "Float":
 			add("string-for-number", "1.5")
 			add("int-for-float", num("2")) // well-typed
+			for _, v := range floatSpellings {
+				add("num-float-spelling", num(v)) // well-typed
+			}
 			add("boolean-for-number", true)
 			add("object-for-scalar", objectForScalar)
 			add("esc-mixed-for-number", escMixed)
